@@ -17,6 +17,12 @@ message) must be the same in every run it is selected in; the exit status must b
 a `Failed:` line is printed and 0 otherwise; the summary counts must equal the number of
 selected tests and of `Failed:` lines. `garden sandboxed-test` (budget 100000 ticks): each test
 alone (offset inside it) vs the whole file.
+Suites spread over 2-3 files given in ONE `garden test f1 f2 …` invocation, with test names that collide
+across files and (every other suite) a name defined twice in one file, the later definition usually being
+the failing one: every test is first run in isolation (its file's functions + that test); each
+invocation (both file orders, `-n` filters matching the duplicated names, each file alone) must print a
+`Failed:` line for exactly the selected tests that fail in isolation, count EVERY selected test in the
+summary, and exit 1 iff one of them fails. Files with a repeated name also go through the model tie.
 """
 import itertools
 import json
@@ -33,7 +39,7 @@ KINDS = ["pass", "pass", "fail", "fail", "err", "deep", "leakdef", "leakuse", "r
 BOOM = "fun boom(n) {\n  if n <= 0 { nosuch9 } else { boom(n - 1) + 1 }\n}"
 
 
-def gen_test(rng, k, kind, shared_funs, loop=False):
+def gen_test(rng, k, kind, shared_funs, loop=False, name=None):
     tg = PG.Gen(rng, size=rng.choice([6, 12, 25]), err_rate=(0.04 if kind == "rand" else 0.0), exits=0.3)
     tg.funs = list(shared_funs)
     body = []
@@ -63,7 +69,7 @@ def gen_test(rng, k, kind, shared_funs, loop=False):
         body.append("assert(%s)" % tg.expr(PG.BOOL, 0))
     elif kind == "loop":
         body.append("let i = 0\n  while True { i += 1 }")
-    name = "t%d_%s" % (k, kind)
+    name = name or "t%d_%s" % (k, kind)
     return name, "test %s {\n%s}\n" % (name, "".join("  " + s + "\n" for s in body))
 
 
@@ -95,6 +101,55 @@ def filters_for(names):
         if f not in out:
             out.append(f)
     return out
+
+
+DUP_NAMES = ["roundtrip", "dup", "basic", "roundtrip_big", "edge"]
+
+
+def gen_suite(rng, in_file_dup):
+    """A test suite spread over 2-3 files (each with its own helper functions, namespaces are per file) whose
+    test names collide across files; if `in_file_dup`, one file also defines the same name twice. In most
+    suites the LATER definition of a colliding name is the failing one. -> list of (funs, [(name, src, kind)])"""
+    nfiles = rng.randrange(2, 4)
+    files = []
+    for fi in range(nfiles):
+        g = PG.Gen(rng, size=25, err_rate=0.0, exits=0.3)
+        funs = [BOOM] + [g.fun_def() for _ in range(rng.randrange(0, 2))]
+        files.append([funs, list(g.funs), []])
+    coll = rng.choice(DUP_NAMES)
+    late_fails = rng.random() < 0.8
+    # the colliding name: first definition in file 0, a later one in the last file
+    plan = {0: [(coll, "pass" if late_fails else rng.choice(["fail", "err"]))],
+            nfiles - 1: [(coll, rng.choice(["fail", "err", "deep"]) if late_fails else "pass")]}
+    for fi in range(nfiles):
+        for _ in range(rng.randrange(0, 3)):
+            nm = rng.choice(DUP_NAMES + ["only%d" % fi, "t%d_x" % fi])
+            if not in_file_dup and any(nm == n for n, _ in plan.get(fi, [])):
+                continue
+            plan.setdefault(fi, []).append((nm, rng.choice(["pass", "pass", "fail", "err", "rand"])))
+    if in_file_dup:
+        fi = rng.randrange(nfiles)
+        nm = rng.choice(DUP_NAMES)
+        plan.setdefault(fi, []).append((nm, "pass"))
+        plan[fi].append((nm, rng.choice(["fail", "err"])))
+        if rng.random() < 0.5:
+            plan[fi].append(("after_dup", "pass"))
+    out = []
+    for fi in range(nfiles):
+        funs, shared, _ = files[fi]
+        tests = []
+        for k, (nm, kind) in enumerate(plan.get(fi, [])):
+            n, src = gen_test(rng, k, kind, shared, name=nm)
+            tests.append((n, src, kind))
+        if not tests:
+            n, src = gen_test(rng, 0, "pass", shared, name="only%d" % fi)
+            tests.append((n, src, "pass"))
+        out.append((funs, tests))
+    return out
+
+
+def failed_multiset(stdout):
+    return sorted((m.group(1), m.group(3) if m.group(3) is not None else "<no message>") for m in FAILED.finditer(stdout))
 
 
 FAILED = re.compile(r"^Failed: (\S+)(?: (\S+:\d+))?\n(?:  (.*)\n)?", re.M)
@@ -253,6 +308,94 @@ def run(ctx):
     ctx.cov["cli_runs"] = n_runs
     ctx.cov["cli_verdicts_by_kind"] = verdict_hist
 
+
+    # ------------------------------------------------------------------ several files, colliding test names
+    # Oracle: every test is first run IN ISOLATION (a file with its own file's functions and that one test);
+    # then the whole suite is run in one `garden test f1 f2 …` invocation (both file orders, several `-n`
+    # filters): the summary must count EVERY selected test (duplicates of a name included), the `Failed:`
+    # lines must be exactly the selected tests that fail in isolation, exit status 1 iff there is one.
+    suites = [gen_suite(rng, k % 2 == 1) for k in range(ctx.scale(10, 200))]
+    sdir = ctx.scratch("suites")
+
+    def run_suite(item):
+        si, suite = item
+        d = os.path.join(sdir, "s%d" % si)
+        os.makedirs(d, exist_ok=True)
+        iso = []          # per file: list of (name, verdict)
+        for fi, (funs, tests) in enumerate(suite):
+            row = []
+            for ti, (n, src, kind) in enumerate(tests):
+                path = os.path.join(d, "iso_%d_%d.gdn" % (fi, ti))
+                with open(path, "w") as f:
+                    f.write("\n".join(funs) + "\n\n" + src)
+                rc, so, se = ctx.garden(["test", path], timeout=120)
+                fm = failed_multiset(so)
+                row.append((n, ("fail", fm[0][1]) if fm else ("pass",), rc, so))
+            iso.append(row)
+        paths = []
+        for fi, (funs, tests) in enumerate(suite):
+            path = os.path.join(d, "f%d.gdn" % fi)
+            with open(path, "w") as f:
+                f.write("\n".join(funs) + "\n\n" + "\n".join(src for _, src, _ in tests))
+            paths.append(path)
+        names = [n for row in iso for n, _, _, _ in row]
+        dups = sorted(set(n for n in names if names.count(n) > 1))
+        flts = [""] + dups[:2] + ["round", "o", "zzz"]
+        runs = []
+        for order in (list(range(len(paths))), list(reversed(range(len(paths))))):
+            for flt in (flts if order[0] == 0 else [""] + dups[:1]):
+                args = ["test"] + (["-n", flt] if flt else []) + [paths[i] for i in order]
+                rc, so, se = ctx.garden(args, timeout=120)
+                runs.append((order, flt, rc, so, se))
+        # single files too (a name repeated inside one file)
+        for fi, p in enumerate(paths):
+            rc, so, se = ctx.garden(["test", p], timeout=120)
+            runs.append(([fi], "", rc, so, se))
+        return iso, runs
+
+    n_suite_runs = n_dup_sel = n_late_fail = 0
+    for (si, suite), (iso, runs) in zip(enumerate(suites), pmap(run_suite, list(enumerate(suites)))):
+        srcs = {"f%d.gdn" % fi: "\n".join(funs) + "\n\n" + "\n".join(src for _, src, _ in tests)
+                for fi, (funs, tests) in enumerate(suite)}
+        seen = set()
+        for row in iso:
+            for n, v, rc, so in row:
+                if n in seen and v[0] == "fail":
+                    n_late_fail += 1
+                seen.add(n)
+                if crashed(rc) or (rc != 0) != (v[0] == "fail"):
+                    ctx.fail("C26/exit-status", "isolated test %s: exit status %d, verdict %s" % (n, rc, v[0]),
+                             files=srcs, stdout=so[-800:])
+        ctx.case(sorted(srcs.items()), True)
+        for order, flt, rc, so, se in runs:
+            n_suite_runs += 1
+            sel = [(n, v) for fi in order for n, v, _, _ in iso[fi] if flt in n]
+            n_dup_sel += len(set(n for n, _ in sel)) < len(sel)
+            want_failed = sorted((n, v[1]) for n, v in sel if v[0] == "fail")
+            got_failed = failed_multiset(so)
+            lines_ = [l for l in so.split("\n") if l.strip()]
+            last = lines_[-1] if lines_ else ""
+            replay = dict(files=srcs, args=["test"] + (["-n", flt] if flt else []) + ["f%d.gdn" % i for i in order],
+                          rc=rc, stdout=so[-1500:],
+                          isolated={"f%d.gdn" % fi: [(n, v) for n, v, _, _ in iso[fi]] for fi in order})
+            if crashed(rc) or rc == -9999:
+                ctx.fail("C26/crash", "`garden test` crashed or hung (rc %d): %s" % (rc, se[-300:]), **replay)
+                continue
+            if got_failed != want_failed:
+                ctx.fail("C26/verdict-depends-on-context",
+                         "tests failing in this run %r, tests (selected here) failing in isolation %r"
+                         % (got_failed, want_failed), **replay)
+            want = expected_summary(len(sel), len(want_failed))
+            if last != want:
+                ctx.fail("C26/summary-counts", "summary line %r, but %d tests are selected of which %d fail in "
+                         "isolation (expected %r)" % (last, len(sel), len(want_failed), want), **replay)
+            if (rc != 0) != bool(want_failed) or rc not in (0, 1):
+                ctx.fail("C26/exit-status", "exit status %d, but %d selected tests fail in isolation"
+                         % (rc, len(want_failed)), **replay)
+    ctx.cov["suite_invocations"] = n_suite_runs
+    ctx.cov["suite_invocations_selecting_duplicate_names"] = n_dup_sel
+    ctx.cov["suites_where_a_later_duplicate_fails"] = n_late_fail
+
     # ------------------------------------------------------------------ correspondence
     corr = []
     for fi, (funs, tests, kinds) in enumerate(files):
@@ -264,6 +407,14 @@ def run(ctx):
         corr.append((fi, render(funs, [tests[i] for i in perm]), "", None, None))
         corr.append((fi, base, rng.choice(filters_for(names)[2:]), None, None))
         corr.append((fi, base, "", rng.choice([5, 20, 60, 150]), rng.choice([None, 2, 3, 5])))
+    # files that define the same test name twice (eval_tests runs every definition, in order)
+    for suite in suites:
+        for funs, tests in suite:
+            names_ = [n for n, _, _ in tests]
+            if len(set(names_)) < len(names_):
+                src_ = "\n".join(funs) + "\n\n" + "\n".join(src for _, src, _ in tests)
+                corr.append((-1, src_, "", None, None))
+                corr.append((-1, src_, next(n for n in names_ if names_.count(n) > 1), None, None))
     # files with an infinite loop: only with a tick limit
     loops = [gen_file(rng, max_tests, with_loop=True) for _ in range(ctx.scale(8, 300))]
     for funs, tests, kinds in loops:
